@@ -11,7 +11,7 @@ CHECKS = [
   "Same engine as C01 with metadata, several markers, both only_if_presented values and both duplicate policies; read_all*, read_with, delete counts and per-blob record counts compared after every step.",
   "Trusts the reference model; read_with compares classification and bytes only (the statement gives no timestamp for it)."),
  ("C03", "fault_enumeration", "model-based property testing with generated index-file damage + systematic truncation sweep",
-  "Histories with 1-8 restarts; before each restart generated damage (remove / truncate per layout class / written flag cleared / header zeroed / all removed / naturally stale index) is applied to index files; every query and count must equal the model after every step. An enumerated phase truncates the index of a closed blob at a stride of lengths (quick) or at every byte length (thorough) for three key lengths, eager and lazy init.",
+  "Histories with 1-8 restarts; before each restart generated damage (remove / truncate per layout class / written flag cleared / header zeroed / all removed / naturally stale index) is applied to index files; every query and count must equal the model after every step. An enumerated phase truncates the index of a closed blob at a stride of lengths (quick) or at every byte length (thorough) for three key lengths, eager and lazy init. Another enumerated phase restarts directories of 11 / 12 / 102 (thorough: 9-120) blobs, eager and lazy, with and without index files.",
   "Damage is applied only to *.index files between two sessions (the domain the statement names). Sampling over histories; the truncation sweep is exhaustive only for its three fixed histories."),
  ("C04", "exploration", "model-based property testing with lifecycle/maintenance operations",
   "Histories interleave data ops with close/create/restore/force_update/offload/fsync/free and index dumps that complete at generated moments (explicit idle waits vs none, 2-5 ms vs 60 s deferred dumps, both runtime flavours); lifecycle results, all queries (data and count queries) and filter answers compared with the model after every step.",
@@ -29,7 +29,7 @@ CHECKS = [
   "2-200 client tasks (bursts of 500-12000 writers) run seeded scripts against one Storage while a maintenance task switches/syncs/frees/closes underneath and blobs rotate every 20-80 records, on three runtime configurations and on fresh or reopened active blobs. Every completed read is checked against the three max-register linearizability conditions (nothing invented, not stale, monotone), the final state against the sequential model of acknowledged operations, and every blob file against tiling / offset / checksum / exactly-once rules. Deadlock is reported only on a structural witness from the H3 probe. A second phase (lifecycle storm) closes the active blob and releases 4-32 clients by a barrier that all restore / create the active blob and write a fresh key, for 40-140 rounds per case; every acknowledged write must stay readable after each round, at quiescence and after a restart.",
   "Weakest fit of the technique: interleavings are sampled from the real scheduler, not enumerated or controlled; a race with a microsecond window can be missed. The replay re-runs the same scripts but re-samples the schedule. Open known finding: the ~8000-writer channel/lock deadlock (burst phase)."),
  ("C09", "exploration", "differential property testing of the index through a probe hook (in-memory vs on-disk vs sorted-list model) + enumerated shape sweep",
-  "Generated header multisets (11 key lengths, fan-out 5..454, runs around block boundaries, ties, markers) are pushed into the real index, dumped, loaded back and reopened; every lookup kind for present and absent keys is compared in all four stages with an independent sorted-list model. Enumerated sweep of key counts around powers of the fan-out per key length.",
+  "Generated header multisets (19 key lengths incl. the capacity-arithmetic classes, fan-out 5..454, runs around block boundaries, ties, markers; for three key lengths also a key type whose order is not the byte order) are pushed into the real index, dumped, loaded back and reopened; every lookup kind for present and absent keys is compared in all four stages with an independent sorted-list model. Enumerated sweep of key counts around powers of the fan-out per key length.",
   "Uses the H5 IndexProbe hook (thin wrapper, no logic). Up to 3000 keys / 6000 headers per case; for >300 keys a spread subset of keys plus leaf-boundary keys is queried in the quick tier."),
  ("C10", "exploration", "property testing of filter units and storage-level filter answers against key-set membership",
   "Bloom/Range/Combined filters: generated configs (odd bit counts, 0-5 hashers, zero sizes) and key sets; no added key is ever denied in memory, after serialization, probed from file bytes (answers must equal in-memory answers for all probes), off-loaded, merged. HierarchicalFilters under push/pop/remove/offload/reload scripts with group sizes 2-9: every key of every present child stays reachable. Storage level: check_filters/check_filter never deny a stored key across offload/restore/delete-in-closed/restart histories.",
@@ -44,13 +44,13 @@ CHECKS = [
   "Generated sequences over all public calls (all *_in_background variants in every active-blob state, force_update predicates incl. a slow one that makes the worker late for a pending deferred dump, data ops, restarts) with tiny blob limits; then the active blob is aged past the 200 ms debounce and over-filled; at idle (nothing queued, nothing running) the worker must be alive, a switch must have happened, every non-empty closed blob must have a complete current index file, and close() must return.",
   "Liveness is judged at quiescence observed through hook H3, so a missing switch is definite; a close() that does not return within 120 s ends the run inconclusive (exit 2)."),
  ("C14", "fault_enumeration", "cancellation-point enumeration: victim future polled with a flag waker and dropped after k resumptions, judged against applied / not-applied / applied-from-restart model worlds",
-  "Generated prefix, one victim call of every kind (writes across the size thresholds, deletes over several blobs, close/create/restore of the active blob, fsyncdata) dropped after k resumptions on both runtime flavours, generated suffix and restarts. All data answers must match a world in which the victim is applied entirely or not at all (a record that reached the file but not the index may take effect from a restart on); later operations must succeed; after the final restart nothing is quarantined and every blob file parses and validates. Enumerated phase: every victim kind x every k x both runtimes x fresh/reopened active blob. Overlap phase: one-thread blocking pool held by a gate, a write polled once and dropped, the next write started at once, gate opened - acknowledged writes read back exactly, the dropped one is absent or complete, blobs parse completely, nothing is quarantined at an index-less restart.",
+  "Generated prefix, one victim call of every kind (writes across the size thresholds, deletes over several blobs, close/create/restore of the active blob, fsyncdata) dropped after k resumptions on both runtime flavours, generated suffix and restarts. All data answers must match a world in which the victim is applied entirely or not at all (a record that reached the file but not the index may take effect from a restart on); later operations must succeed; after the final restart nothing is quarantined and every blob file parses and validates. Enumerated phase: every victim kind x every k x both runtimes x fresh/reopened active blob. Init phase: init / init_lazy polled 1-16 times and dropped on a storage with a harness-owned one-permit dump semaphore - the permit must be back once nothing is in flight, then the same object is initialised again and judged against the model. Overlap phase: one-thread blocking pool held by a gate, a write polled once and dropped, the next write started at once, gate opened - acknowledged writes read back exactly, the dropped one is absent or complete, blobs parse completely, nothing is quarantined at an index-less restart.",
   "Suspension points are those the runtime produces. Open known findings: a dropped blob creation leaves an empty blob file that the next start quarantines; a dropped delete may have marked only some of the blobs."),
  ("C15", "exploration", "model-based property testing of accounting values",
   "records_count*, blobs_count, next_blob_id, corrupted_blobs_count compared with the model after every step of generated histories (restore, delete into closed blobs, forced switches, clean restarts, restarts without close with blob damage that quarantines a blob); disk_used compared with the directory listing at every idle point.",
   "The id printed for the active entry of records_count_detailed is not asserted (only its count). disk_used is compared only at idle points (no dump in flight)."),
  ("C16", "fault_enumeration", "property testing of the offline tools on storage-produced blobs under generated truncation / byte-flip damage per position class",
-  "Blobs produced by generated single-blob histories; undamaged files must pass validate_blob/validate_index, read_index must report exactly the parser's headers, migrate_blob must preserve every record. One generated damage (truncation inside a record per class, or a flipped byte in one of 15 position classes): validate_blob must reject, recovery_blob (skip off/on) must produce a valid blob with every intact record before the damage (and after it when skipping applies), correct blob_offsets, nothing invented, and a Storage opened on the output must serve every contained record with its original bytes.",
+  "Blobs produced by generated single-blob histories; undamaged files must pass validate_blob/validate_index, read_index must report exactly the parser's headers, migrate_blob must preserve every record. One generated damage (truncation inside a record per class, or a flipped byte in one of 15 position classes): validate_blob must reject, recovery_blob (skip off/on) must produce a valid blob with every intact record before the damage (and after it when skipping applies), correct blob_offsets, nothing invented, and a Storage opened on the output must serve every contained record with its original bytes. Enumerated phase: blobs of 1500-2600 records recovered / migrated undamaged for validate_every around 1024 and around the record count, also from a version-0 source (0 -> 1 migration).",
   "Known findings (open): flips in the blob header's version/flags fields and decodable flips in meta bytes are accepted by validate_blob (no checksum covers them); those cases print KNOWN-FINDING and are excluded from the reject clause only."),
  ("C17", "exploration", "cross-version differential against a committed corpus written by the pinned tree, exhaustively enumerated index-presence subsets and mismatch mutations",
   "9 corpus directories written by the pinned release with recorded answers; for every subset of removed index files and both init modes the current code must reproduce every recorded answer and rebuild byte-identical index files; a bumped blob version must make init fail, a bumped index version must be healed by regeneration, another key size must never yield a successful read.",
